@@ -14,6 +14,7 @@ def run(ck):
         extra(ck, w)
     v1_padding_flag(ck, w)
     v2_div_rem_wrap(ck, w)
+    v3_limb_masks(ck, w)
 
 
 def v1_padding_flag(ck, w):
@@ -81,3 +82,27 @@ def v2_div_rem_wrap(ck, w):
     ck.record('C04.V2', 'div_rem:no-wrap-guard', guard, 'a guard combines divisor and bound arithmetically and compares the result',
               'DivisionInstructions::div_rem has no guard that divisor * q + r stays below the modulus: with the default bound (None = p - 1) the sum wraps, e.g. '
               'dividend 0, divisor 2 admits (q, r) = ((p-1)/2, 1)', hirq.fn_loc(f))
+
+
+def v3_limb_masks(ck, w):
+    """limb masks of the decomposition helpers are not computed in a fixed-width integer"""
+    from ..core import walk, peel, pat_bindings, expr_str
+    from ..engines import hirq
+    ck.rule('C04.V3', 'off-circuit decomposition helpers (field/decomposition/cpu_utils.rs) shift by a LIMB SIZE only in big-integer arithmetic: limb sizes are '
+                      'arbitrary (anything below F::NUM_BITS is in the documented domain of assigned_to_le_chunks), so `1 << limb_size` in a u64 overflows for '
+                      'limbs of 64 bits or more — a panic in debug builds, wrong limbs (an unsatisfiable circuit for the honest prover) in release builds')
+    fs = [f for f in w.all_fns(['circuits']) if f['file'].endswith('field/decomposition/cpu_utils.rs') and '::tests' not in f['_nid']]
+    ck.floor('C04.V3', 'cpu_utils functions', len(fs), 3)
+    n = 0
+    for f in fs:
+        for x in walk(f['body']):
+            if x.get('k') == 'bin' and x.get('op') == '<<' and (x.get('t') or '') in ('u8', 'u16', 'u32', 'u64', 'u128', 'usize', 'i32', 'i64'):
+                amount = [y for y in walk(x['b']) if y.get('k') == 'local']
+                if not amount:
+                    continue
+                names = {y['n'] for y in amount}
+                if any('limb' in nm or 'size' in nm or 'bits' in nm for nm in names):
+                    n += 1
+                    ck.bad('C04.V3', f'{f["_nid"]}|{expr_str(x)[:40]}', f'{f["_nid"]}: `{expr_str(x)[:50]}` is evaluated in {x.get("t")}: it overflows for limb sizes '
+                           f'of {x.get("t")[1:] if x.get("t")[1:].isdigit() else "64"} bits or more', hirq.fn_loc(f, x))
+    ck.ok('C04.V3', 'no-fixed-width-limb-shift', f'{len(fs)} functions inspected, {n} fixed-width shifts by a limb size')
